@@ -299,6 +299,12 @@ def rule_parser_table(chk, rid):
     for d in ast.walk(bp.node):
         if isinstance(d, ast.Call) and call_name(d) == "dict" and {k.arg for k in d.keywords} >= {"y", "n"}:
             tables.append(tuple(sorted((k.arg, U(k.value)) for k in d.keywords)))
+    # a table shared through a module-level constant counts once per method that names it
+    for nm in ast.walk(bp.node):
+        if isinstance(nm, ast.Name) and len(m.assigns.get(nm.id, [])) == 1:
+            d = m.assigns[nm.id][0]
+            if isinstance(d, ast.Call) and call_name(d) == "dict" and {k.arg for k in d.keywords} >= {"y", "n"}:
+                tables.append(tuple(sorted((k.arg, U(k.value)) for k in d.keywords)))
     chk.ob(rid, f"{bp.qual}", len(tables) >= 2 and len(set(tables)) == 1, f"{len(tables)} truth tables, all identical", bp.node, m, key="bool-table")
     cx = repo.cls(CMD, "ContextArgumentParser").methods.get("parse_meta")
     chk.ob(rid, f"{CMD}.ContextArgumentParser.parse_meta", all(U(r.value) == "(context, (context, metadata), args)" for r in returns_of(cx)), "the context parser consumes no token", cx, m, key="context")
